@@ -956,6 +956,14 @@ impl H {
                     self.find(&["C13", "C12"], "cli-append/failed".into(), json!({"args": args, "exit": code, "stderr": err.chars().take(300).collect::<String>()}));
                     return self.state_check();
                 }
+                if out.is_empty() {
+                    // exit 0 and nothing printed: `xs append` writes its answer with tokio's stdout and returns without a
+                    // flush, so the line can be lost when the process exits (an observation about the CLI, not about the
+                    // API); the append itself happened and its id is unknown here: the sequence cannot go on
+                    *self.r.res.counters.entry("cli.exit_0_with_empty_output".into()).or_insert(0) += 1;
+                    self.r.res.inconclusive = Some("xs append exited 0 without printing the frame (unflushed stdout); the model cannot follow".into());
+                    return Ok(());
+                }
                 match serde_json::from_slice::<Frame>(&out) {
                     Ok(got) => {
                         let exp = Frame::builder(topic, Scru128Id::from(ctx)).id(got.id).maybe_meta(meta.clone()).ttl(ttl).maybe_hash(if body.is_empty() { None } else { crate::cas::sha256_integrity(&body).parse().ok() }).build();
@@ -973,6 +981,10 @@ impl H {
                 if let Some(id) = self.pick_existing() {
                     let ids = id_str(id);
                     if let Some((code, out, _)) = self.cli(&["get", &dir, &ids], None) {
+                        if code == 0 && out.is_empty() {
+                            *self.r.res.counters.entry("cli.exit_0_with_empty_output".into()).or_insert(0) += 1;
+                            return Ok(());
+                        }
                         match serde_json::from_slice::<Frame>(&out) {
                             Ok(f) if code == 0 && frame_digest(&f) == self.r.model.frames[&id].digest => {}
                             other => self.find(&["C13"], "cli-get/frame-differs-or-failed".into(), json!({"exit": code, "got": other.map_err(|e| e.to_string()), "expected": self.r.model.frames[&id].frame})),
@@ -986,7 +998,15 @@ impl H {
                 let body = self.rng().bytes(n);
                 if let Some((code, out, err)) = self.cli(&["cas-post", &dir], Some(&body)) {
                     let want = crate::cas::sha256_integrity(&body);
-                    if code != 0 || String::from_utf8_lossy(&out).trim() != want {
+                    if code == 0 && out.is_empty() {
+                        // (unflushed stdout, see the append leg) the content itself must be there all the same
+                        *self.r.res.counters.entry("cli.exit_0_with_empty_output".into()).or_insert(0) += 1;
+                        if let Some((c2, o2, _)) = self.cli(&["cas", &dir, &want], None) {
+                            if c2 != 0 || o2 != body {
+                                self.find(&["C13", "C10"], "cli-cas/content-differs-or-failed".into(), json!({"exit": c2, "got_len": o2.len(), "want_len": body.len(), "after": "cas-post that printed nothing"}));
+                            }
+                        }
+                    } else if code != 0 || String::from_utf8_lossy(&out).trim() != want {
                         self.find(&["C13", "C10"], "cli-cas-post/hash-differs-or-failed".into(), json!({"exit": code, "got": String::from_utf8_lossy(&out), "want": want, "stderr": err.chars().take(200).collect::<String>()}));
                     } else if let Some((c2, o2, _)) = self.cli(&["cas", &dir, &want], None) {
                         if c2 != 0 || o2 != body {
